@@ -20,6 +20,7 @@ su.int = int_shim
 # ------------------------------------------------------------------ ensure_unique_labels
 def unique_harness(ctx, cfg):
     shape = tuple(cfg["shape"])
+    ctx.allow_realise = cfg.get("max_label") is not None
     multiseg = cfg.get("multiseg", False)
     a = SArr.fresh("s", shape, np.int32)
     inp = a.c.copy()
@@ -97,6 +98,7 @@ def su_real():
 # ------------------------------------------------------------------ relabel_segmentation_with_track_id
 def bytrack_harness(ctx, cfg):
     N, T, P = cfg["N"], cfg["T"], cfg["P"]
+    ctx.allow_realise = cfg.get("max_label") is not None
     g = SymDiGraph(list(range(1, N + 1)), tag="g")
     for s in range(N):
         g.E[s][s] = False
